@@ -128,6 +128,23 @@ fn plan() -> Plan {
             h.push(idx(MAct::Tick(2_000_000_000), &mut acts));
             h.extend(tail(&mut acts, &mut idx));
             hists.push((format!("(ttl-not-reached)|{}|must-not-abort", sname), h));
+            // the deadline passed before the WATCH and nobody has looked at the key since: it is absent when it is watched
+            // and absent at EXEC, whoever removes the remains in between (EXEC's own check, the sweeper) - must not abort
+            // (a seeded WATCH took its baseline without the lazy removal, which then counted as a modification)
+            for (tname, ns) in [("exec-at-once", 0u64), ("sweeper-in-between", 2_000_000_000u64)] {
+                let mut h: Vec<usize> = Vec::new();
+                for sc in seed.iter() {
+                    h.push(idx(cmd(1, sc), &mut acts));
+                }
+                h.push(idx(cmd(1, &["PEXPIRE", "k", "100"]), &mut acts));
+                h.push(idx(MAct::Tick(150_000_000), &mut acts));
+                h.push(idx(cmd(0, &["WATCH", "k"]), &mut acts));
+                if ns > 0 {
+                    h.push(idx(MAct::Tick(ns), &mut acts));
+                }
+                h.extend(tail(&mut acts, &mut idx));
+                hists.push((format!("(expired-before-watch)|{}|{}|must-not-abort", sname, tname), h));
+            }
             // a deadline that was removed again before the WATCH (PERSIST, or the key written anew) leaves a stale entry in
             // the sweeper's index: the old deadline passing and the sweeper looking at that entry change nothing and must
             // not abort (a seeded sweeper marked every key it re-validated as modified)
